@@ -137,6 +137,22 @@ CORPUS_BYSTANDERS = [
     dict(bystanders='mixed', raw=True, dat_name='near', temp_wh=True, force=True), dict(bystanders='plain', raw=False, temp_wh=True),
     dict(bystanders='near_delete', target='same_dotdot', temp_wh=True), dict(bystanders='mixed', target='fresh_symlink', raw=True, dat_name='near'),
 ]
+# stage 6 (seeded changes C13-m12 / C13-m13): a history of the output directory (an earlier export of the same source with the same
+# or an earlier clustering, possibly damaged afterwards, then convert(force=True)); source files present as links into a store
+CORPUS_HISTORY = [
+    dict(history='recurate', curated='nogap', raw=False, label='', corrupt=[]), dict(history='recurate', curated='no', raw=True, label='', corrupt=[]),
+    dict(history='recurate', curated='ops', raw=False, label='', temp_wh=True, kslabel=True, corrupt=['uuids_long']),
+    dict(history='same', curated='ops', raw=True, label='', corrupt=['uuids_short']), dict(history='same', curated='no', label='', corrupt=['npy_rows', 'delete_some']),
+    dict(history='recurate', curated='same_file', label='', vec2d=True, target='fresh_symlink', corrupt=['uuids_junk', 'empty_files']),
+]
+CORPUS_LINKS = [
+    dict(links='clusters', link_kind='abs', curated='ops', raw=False, clu_dtype='int32', label='probe00'),
+    dict(links='clusters', link_kind='rel', curated='same_file', vec2d=True, raw=True, label=''),
+    dict(links='copied', link_kind='chain', curated='nogap', kslabel=True, cluster_probes=True, labels=True, drift=True),
+    dict(links='all', link_kind='abs', curated='ops', raw=True, temp_wh=True, kslabel=True), dict(links='all', link_kind='hard', curated='ops', raw=False, temp_wh=True),
+    dict(links='any', raw=True, dat_name='near', bystanders='mixed', temp_wh=True), dict(links='clusters', curated='ops', target='same_dotdot'),
+    dict(links='clusters', curated='ops', history='recurate', label='', corrupt=[]),
+]
 COMPRESS = [dict(ids='edge', label='', missing='none'), dict(ids='edge', label='probe00', missing='none', vec2d=True),
             dict(ids='over', label='', missing='none'), dict(ids='over', label='probe00', missing='none'),
             dict(ids='neg', label='', missing='none'), dict(ids='small', label='templates', missing='none'),
@@ -236,7 +252,22 @@ def generate(tier, rng):
     for force in CORPUS_BYSTANDERS:
         for _ in range(reps):
             first.append({'kind': 'convert', 'inp': D13.gen(rng5, **force)})
-    return first + cases
+    # ---- stage 6 additions (a separate stream once more): the ENVIRONMENT of the source files (any regular file of the source
+    # may be a symbolic / hard link into a store outside the directory) and the HISTORY of the output directory (an earlier
+    # export of the same directory, with the same or an earlier clustering, possibly damaged, then convert(force=True)) ----
+    rng6 = random.Random('c13-stage6-%s' % tier)
+    for c in first + cases:
+        if c['kind'] != 'convert':
+            continue
+        if rng6.random() < 0.15:
+            D13.set_links(c['inp'], rng6, rng6.choice(['clusters', 'clusters', 'copied', 'any', 'any', 'all']))
+        if c['inp']['target'].startswith('fresh') and not c['inp']['label'] and rng6.random() < 0.3:
+            D13.set_history(c['inp'], rng6, rng6.choice(['same', 'recurate', 'recurate']))
+    first6 = []
+    for force in CORPUS_HISTORY[:2] + CORPUS_LINKS[:2] + CORPUS_HISTORY[2:] + CORPUS_LINKS[2:]:
+        for _ in range(reps):
+            first6.append({'kind': 'convert', 'inp': D13.gen(rng6, **force)})
+    return first6 + first + cases
 
 
 # ---- implementation ------------------------------------------------------------------------------------
@@ -389,15 +420,25 @@ def run_case(case):
         t = inp['target']
         fresh = t.startswith('fresh')
         _prepare_source(t, src)
+        # stage 6: the earlier part of the history of the output directory (performed before the source is looked at), then the
+        # source files that are links into <d>/store
+        placed = None
+        hist_fail = ''
+        if inp.get('history'):
+            placed = _place_target(t, d, src)
+            hist_fail = D13.run_history(inp, src, kw, placed[0], placed[1])
+        D13.apply_links(inp, d, src)
         # a crash of the source load is reported by the pool as a crash of the case: encode() then falls back on
         # the static file list, which Corr.norm_src completes with what the loader model says the load creates
         m = TemplateModel(**kw)
         has_raw = m.traces is not None
         npy0, other0, hashes0 = D13.snapshot(src)
-        target, out = _place_target(t, d, src)
+        target, out = placed or _place_target(t, d, src)
         top0 = sorted(os.listdir(d))
         outcome, info = 'converted', ''
         try:
+            if hist_fail:
+                raise RuntimeError('history: ' + hist_fail)
             m2 = EphysAlfCreator(m).convert(target, force=inp.get('force', False), label=inp['label'], ampfactor=inp['factor'])
         except IOError as e:
             if 'cannot be the same' in str(e):
@@ -434,6 +475,12 @@ def run_case(case):
                 npy1, other1, hashes1 = D13.snapshot(src)
             except Exception as e:  # noqa
                 obs['outcome'], obs['info'] = 'crash', 'reading the directories after convert(): %s: %s' % (type(e).__name__, str(e)[:160])
+            # an exported file that is a link (into the source's store, or anywhere) is not a written file of its own: it is
+            # shown to the comparator as a non-array file of unknown content, whatever it points to
+            for k in sorted(os.listdir(out)) if os.path.isdir(out) else []:
+                if os.path.islink(os.path.join(out, k)):
+                    out_npy.pop(k, None)
+                    out_other[k] = 'LINK:' + k
             shas |= set(out_other.values())
         ids = {h: i for i, h in enumerate(sorted(shas))}
         obs['src_others'] = sorted((k, ids[v]) for k, v in other0.items())
@@ -555,9 +602,12 @@ def dist(case, obs):
         out = ['outcome=' + obs[1]['outcome'] + ((':' + obs[1]['info'].split(':')[0]) if obs[1]['outcome'] == 'crash' else '')]
     for k in ('raw', 'features', 'curated', 'probes', 'vec2d', 'label', 'factor', 'temp_wh', 'kslabel', 'params_py',
               'last_template_empty', 'other_template_empty', 'target', 'id_dtype', 'clu_dtype', 'cm_dtype', 'time_dtype', 'old_subset',
-              'cluster_probes', 'drift', 'labels', 'big_ids', 'big_top', 'sparse', 'force', 'bystanders', 'dat_name'):
+              'cluster_probes', 'drift', 'labels', 'big_ids', 'big_top', 'sparse', 'force', 'bystanders', 'dat_name', 'links', 'history', 'corrupt'):
         out.append('%s=%s' % (k, o.get(k)))
     out.append('n_bystanders=%d' % len(o.get('bystander_names', [])))
+    for k in sorted(set((case['inp'].get('links') or {}).values())):
+        out.append('link_kind=' + k)
+    out.append('n_links=%d' % min(len(case['inp'].get('links') or {}), 5))
     if 'temp_wh.dat' in o.get('dat_names', []):
         out.append('raw data = temp_wh.dat')
     out.append('kind=' + case['kind'])
@@ -603,7 +653,18 @@ def shrink(case):
         c = copy.deepcopy(inp)
         f(c)
         return {'kind': case['kind'], 'inp': c}
-    if inp.get('force'):
+    if inp.get('history'):
+        yield variant(lambda c: [c.pop('history'), c.__setitem__('force', False)])
+        if inp['history']['corrupt']:
+            yield variant(lambda c: c['history'].__setitem__('corrupt', []))
+        if inp['history']['pre_clusters'] != 'keep':
+            yield variant(lambda c: c['history'].__setitem__('pre_clusters', 'keep'))
+    if inp.get('links'):
+        yield variant(lambda c: c.pop('links'))
+        if len(inp['links']) > 1:
+            for name in sorted(inp['links']):
+                yield variant(lambda c, name=name: c['links'].pop(name))
+    if inp.get('force') and not inp.get('history'):
         yield variant(lambda c: c.__setitem__('force', False))
     if inp['label']:
         yield variant(lambda c: c.__setitem__('label', ''))
@@ -660,8 +721,12 @@ def repro(case):
             "from vt import datasets_c13 as D13; kw = D13.rename_raw(inp, src, kw)    # the raw-data files under the names inp['dat_names'], if any\n"
             "if not inp['params_py']: os.remove(os.path.join(src, 'params.py'))\n"
             "c13._prepare_source(inp['target'], src)        # <src>/sub or <src>/self for those spellings of the target\n"
-            "m = TemplateModel(**kw); before = D.listing(src); cwd = os.getcwd()\n"
-            "target, out = c13._place_target(inp['target'], d, src)   # the path given to convert(), where the export is found\n"
+            "cwd = os.getcwd(); placed = None\n"
+            "if inp.get('history'):      # an earlier convert() of (the earlier state of) src into the same target, then damage inp['history']['corrupt']\n"
+            "    placed = c13._place_target(inp['target'], d, src); print('history:', D13.run_history(inp, src, kw, placed[0], placed[1]) or 'earlier export done')\n"
+            "D13.apply_links(inp, d, src)   # the files named in inp.get('links') moved to <d>/store, links left in src\n"
+            "m = TemplateModel(**kw); before = D.listing(src)\n"
+            "target, out = placed or c13._place_target(inp['target'], d, src)   # the path given to convert(), where the export is found\n"
             "print('convert(', repr(target), ') of', src)\n"
             "try:\n"
             "    m2 = EphysAlfCreator(m).convert(target, force=inp.get('force', False), label=inp['label'], ampfactor=inp['factor'])\n"
@@ -670,7 +735,8 @@ def repro(case):
             "os.chdir(cwd); after = D.listing(src)\n"
             "print('source: changed', [k for k in before if k in after and after[k] != before[k]], 'deleted', sorted(set(before) - set(after)), 'new', sorted(set(after) - set(before)))\n"
             "for k in (sorted(os.listdir(out)) if out != src and os.path.isdir(out) else []):\n"
-            "    print(k, (lambda a: (a.dtype, a.shape))(np.load(os.path.join(out, k))) if k.endswith('.npy') else '')\n"
+            "    print(k, (lambda a: (a.dtype, a.shape))(np.load(os.path.join(out, k))) if k.endswith('.npy') else '', 'LINK' if os.path.islink(os.path.join(out, k)) else '')\n"
+            "if os.path.exists(os.path.join(out, 'clusters.uuids.csv')): print('uuids:', len(open(os.path.join(out, 'clusters.uuids.csv')).read().split(chr(10))) - 1)\n"
             "print('source ', m.spike_samples, m.spike_times, m.spike_clusters, m.spike_templates, m.channel_mapping)\n"
             "if m2 is not None: print('reload ', m2.spike_samples, m2.spike_times, m2.spike_clusters, m2.spike_templates, m2.channel_mapping)\n"
             % (case['inp'],))
